@@ -230,6 +230,12 @@ impl<T: ArrayValue> Array<T> {
         }
         new_shape.extend_from_slice(&self.shape[index_last_axis_len..]);
         if new_shape.contains(&0) {
+            // Nothing is picked, but the indices must still be in bounds
+            if index_last_axis_len > 0 {
+                for index in index_data.chunks_exact(index_last_axis_len) {
+                    self.pick_single(index, env)?;
+                }
+            }
             return Ok(Array::new(new_shape, []));
         }
         let index_row_elems = index_shape[1..].iter().product();
@@ -617,6 +623,26 @@ impl<T: ArrayValue> Array<T> {
                     .all(|(&i, &s)| i.map_or(true, |i| i.unsigned_abs() == s))
                 {
                     return self.take(&[Ok(taking)], env);
+                }
+                // With no rows to take from, the other axes must still be checked
+                if abs_taking.min(row_count) == 0
+                    && let Err(e) = &fill
+                {
+                    for (&i, &s) in sub_index.iter().zip(&self.shape[1..]) {
+                        if let Ok(i) = i
+                            && i.unsigned_abs() > s
+                        {
+                            return Err(env
+                                .error(format!(
+                                    "Cannot take {} rows from array with {} row{} \
+                                    outside a fill context{e}",
+                                    i.unsigned_abs(),
+                                    s,
+                                    if s == 1 { "" } else { "s" }
+                                ))
+                                .fill());
+                        }
+                    }
                 }
                 let mut new_rows = Vec::with_capacity(abs_taking.min(row_count));
                 let mut arr = if taking >= 0 {
